@@ -24,8 +24,8 @@ ENTRY = dict(
             "on_change: first value, then exactly the values differing from the last delivered": "theorem (onChange_snoc, onChange_first, onChange_num)",
             "debounce: delivered once differing for the configured number of consecutive calls": "theorem (debounce_snoc, debounce_delivers_iff)",
             "throttle: never two deliveries closer than the interval; a later value is always delivered": "theorem (throttle_spacing, throttle_snoc)",
-            "delta: differences add up to the total change": "theorem (delta_telescopes, delta_total_change, delta_snoc); over Parameter objects: open finding F4 (raises)",
-            "aggregate: delivered sums + remainder = sum of inputs": "theorem (aggregate_conservation, aggregate_snoc)",
+            "delta: differences add up to the total change": "theorem (delta_telescopes / delta_total_change over numbers; delta_telescopes_numeric / delta_total_change_numeric over numbers AND True / False in any mix — booleans are numbers for the filters; delta_snoc); over Parameter objects: open finding F4 (raises; a number following a Parameter raises TypeError in the same way)",
+            "aggregate: delivered sums + remainder = sum of inputs": "theorem (aggregate_conservation_observable: delivered sums + the values of the calls made since the last delivery = sum of all inputs — stated on the call / delivery history only; aggregate_delivered_is_total: at every delivery instant the delivered sums are the sum of all inputs so far; aggregate_conservation is the same with the machine's internal remainder, tied to the history by aggregate_state; aggregate_snoc)",
             "delivered values unmodified and in order": "theorem (passThrough_sublist, custom_outs)",
             "several filter objects built around the same callback are independent": "theorem (instances_independent: each object filters its own call sequence as a fresh filter, however the calls interleave) + correspondence (the same factory expression evaluated 2-3 times around ONE callback object, coinciding streams; per-object judge C20.spec)",
             "the delivered object IS the object passed in (pass-through filters)": "correspondence (identity observed by the harness; values: theorem passThrough_sublist)",
@@ -42,7 +42,8 @@ ENTRY = dict(
         assumptions=COMMON_ASSUME + [
             "numbers reaching a filter are exactly representable (the harness uses multiples of 1/16 below 10^6); math.isclose's relative tolerance 1e-9 is then inert",
             "dicts are carried in the model as opaque values with structural equality and no subtraction (the string of their key-sorted text), nested lists as lists of injective codes of the inner lists: the filters only use ==, `in` and - on values",
-            "Parameter objects are not mixed with values of other kinds in one sequence; values of different kinds compare as changed (Python 3.12: truthy NotImplemented)",
+            "mixed kinds: a plain value FOLLOWING a Parameter is compared as Parameter.__eq__ does (the parameter's value against int() of a number / True / False, 1 / 0 for 'on' / 'off'; anything else counts as changed), a Parameter following a plain value always counts as changed (float.__ne__(Parameter) is the truthy NotImplemented), delta's difference in the two orders is a TypeError resp. value - int(old): all of this is in `changed` / `difference` / `differs` / `expectDelta` and exercised by the harness (value class param-mixed); other values of different kinds compare as changed (Python 3.12: truthy NotImplemented)",
+            "in a chain a(b(cb)) both stages read the SAME clock value (chainStep hands the call time on): in the code each stage calls time.monotonic() itself, the inner one some microseconds later; the harness's patched clock does not move inside a call. Chain theorems that involve two clocked stages (throttle / aggregate inside a chain: chain_throttle_spacing, holds_chain) are modulo that; an inner reading later by d only makes the inner stage deliver earlier by at most d",
             "calls to one filter object do not overlap (each call is awaited before the next)",
         ],
     )
